@@ -11,7 +11,7 @@ import itertools
 SUPPORTS_REPLAY = True
 SHARDS = {'quick': 16, 'thorough': 64}
 TIMEOUT = {'quick': 900, 'thorough': 5400}
-MUST_HIT = ['OrderedSetInv', 'ListModel', 'icontract.OrderedSetInv', 'Operand.binary-operand-with-repeats', 'Operand.one-shot-iterator-operand', 'Operand.reverse-iteration-with-removal', 'Ambient.OrderedSetInv.ambient', 'Ambient.Suite.tests-passed']
+MUST_HIT = ['OrderedSetInv', 'ListModel', 'icontract.OrderedSetInv', 'Operand.binary-operand-with-repeats', 'Operand.one-shot-iterator-operand', 'Operand.reverse-iteration-with-removal', 'Operand.mixed-kind-operands', 'Ambient.OrderedSetInv.ambient', 'Ambient.Suite.tests-passed']
 MUST_REACH = ['xtuml/tools.py:OrderedSet.add', 'xtuml/tools.py:OrderedSet.discard',
               'xtuml/tools.py:OrderedSet.pop', 'xtuml/tools.py:OrderedSet.__eq__',
               'xtuml/tools.py:OrderedSet.__reversed__', 'xtuml/meta.py:QuerySet.last']
@@ -210,6 +210,25 @@ def apply(s, model, op, cls):
         bad = invariant(r)
         if bad:
             raise Mismatch('invariant', 'result of %s: %s' % (name, bad))
+        # operands of different kinds: the left operand is the other ordered-set class, or a plain collection (then
+        # the reflected operator of the right operand computes the result); a mathematical set does not care
+        HITS['mixed-kind-operands'] = HITS.get('mixed-kind-operands', 0) + 1
+        right = cls(op[1])
+        for left in [k(before) for k in classes() if k is not cls] + [list(before), set(before), tuple(before)]:
+            if isinstance(left, tuple) and style != 3:
+                continue
+            try:
+                r3 = fn(left, right)
+            except TypeError:
+                if isinstance(left, (list, tuple, set)):
+                    raise Mismatch('algebra/reflected-' + name, '%s %s %s(%r) is a TypeError' % (
+                        type(left).__name__, name, cls.__name__, op[1]))
+                raise
+            if set(r3) != want or len(r3) != len(want):
+                raise Mismatch('algebra/mixed-' + name, '%s(%r) %s %s(%r) gave %r' % (
+                    type(left).__name__, before, name, cls.__name__, op[1], list(r3)))
+            if list(right) != list(cls(op[1])) or list(left) != list(type(left)(before)):
+                raise Mismatch('algebra/operand-changed', 'mixed %s changed an operand' % name)
         # the result is a set of its own: changing it afterwards leaves both operands as they were
         marker = ('marker', len(before))
         r.add(marker)
